@@ -90,6 +90,7 @@ def run(prog, rep, tier='quick'):
     rep.rule('order-update', 'no store a[i2] = f(.., a[i1], ..) follows a store to a[i1] in the same iteration (two-ended step-up)')
     rep.rule('integer-data', 'no product / integer power of the raw samples is formed while they may still have an integer dtype')
     rep.rule('scaling', 'a, ref: s=0; rho: s=2 under every criterion')
+    rep.rule('admission', 'every raise guarded by a test on (N, order) is false on the grid N=4..10, order=1..N-2')
     f = prog.func('burg', 'arburg')
     from ..idioms import canonicalise
     node = canonicalise(f.node)
@@ -266,6 +267,12 @@ def run(prog, rep, tier='quick'):
     else:
         rep.proved('integer-data', f.qname, 'arithmetic on the raw samples', 'no product or integer power of integer-typed samples '
                    '(conversions to float/complex come first)', where)
+    # the stated domain (orders 1..N-2) is admitted: no guard on the sizes rejects a point of it
+    from ..d1rules import admission
+    grid = [{'N': n_, 'Po': p_} for n_ in range(4, 11) for p_ in range(1, n_ - 1)]
+    here = {f.qname} | {q_ for q_ in itp.trace if q_.startswith('burg.')}
+    n_adm, _ = admission(rep, 'admission', itp, here, grid, lambda w: 'N = %d samples, order = %d' % (w['N'], w['Po']), seen)
+    rep.floor('size guards evaluated on the admissible grid', n_adm, 1)
     rep.floor('criterion exits', n_exit, 1)
     rep.floor('variance guards', n_guard, 1)
     rep.floor('contexts', n_ctx, 14)
